@@ -35,6 +35,9 @@ ATOMS = [
     "2015-06-30T23:59:60", "23:59:60Z", "2001-12-31T23:59:60.123456789", "+05", "-0530", "+05:30", "0x1F", "1E", "E5",
     "a_", "_a", "a b", "/*", "*/", "#", "<m>", "'", '"', "''", '""', "'a'",
     '"a b"', "a-", "-a", "a+b", "a&b", "1.5e-3", "0",
+    # fractions of a second beyond what PDS3 has; both sign positions
+    "12:00:45.4571", "1:1:1.0001", "01:10:39.457591", "12:00:00.123",
+    "2001-001T01:10:39.457591", "16#-FF#", "+16#FF#",
 ]
 
 
@@ -164,6 +167,41 @@ def input_reason(s, g, dialect):
     return "other"
 
 
+_BASED = re.compile(r"([+-]?)([0-9]+)#([+-]?)([0-9A-Za-z]+)#\Z")
+# where the dialect's notation puts the sign, and which radixes it has
+# (PVL: [sign]radix#digits#, binary / octal / hexadecimal; ODL: radix#[sign]
+# digits#, radix 2 ... 16; the permissive grammar takes either position)
+BASED_RULES = {"PVL": ("front", (2, 8, 16)), "ISIS": ("front", (2, 8, 16)),
+               "ODL": ("inside", tuple(range(2, 17))),
+               "PDS3": ("inside", tuple(range(2, 17))),
+               "default": ("either", tuple(range(2, 17)))}
+
+
+def based_read(s, dialect):
+    """Independent reader of the based-integer notation: ("based", value) for
+    text in the dialect's notation, ("no", why) for text of that general form
+    which the notation excludes, None for anything else."""
+    m = _BASED.match(s)
+    if not m or not s.isascii():
+        return None
+    front, radix, inside, digits = m.groups()
+    where, radixes = BASED_RULES[dialect]
+    if front and inside:
+        return ("no", "two signs")
+    if (front and where == "inside") or (inside and where == "front"):
+        return ("no", "sign position")
+    if radix.startswith("0") or int(radix) not in radixes:
+        return ("no", "radix")
+    r = int(radix)
+    val = 0
+    for c in digits:
+        v = "0123456789abcdef".find(c.lower())
+        if v < 0 or v >= r:
+            return ("no", "digit not of the radix")
+        val = val * r + v
+    return ("based", -val if "-" in (front, inside) else val)
+
+
 def classify(s, g, d):
     cf = s.casefold()
     parts = {
@@ -248,6 +286,31 @@ def check_string(rec, pvl, dialect, g, d, enc, s, parsers=None):
                 bad("class-differs-from-the-date-time-notation",
                     {"class": cls, "notation": spec[0]},
                     f"{s!r} is a {spec[0]} in the {dialect} notation, classified {cls}")
+        elif spec[0] == "rejected":
+            # text of the date/time form that this dialect excludes (PDS3: a
+            # zone offset, more than milliseconds; seconds = 60 where the
+            # dialect does not keep such text): not of the date/time class
+            rec.count("date_time_class_checked_against_the_notation_reader")
+            if cls == "datetime":
+                bad("class-differs-from-the-date-time-notation",
+                    {"class": cls, "notation": "excluded: " + spec[1]},
+                    f"{s!r} is excluded from the {dialect} notation ({spec[1]}), "
+                    f"classified {cls}")
+    # the based-integer class against an independent reader of that notation
+    br = based_read(s, dialect)
+    if br is not None:
+        rec.count("based_class_checked_against_the_notation_reader")
+        if (br[0] == "based") != (cls == "based"):
+            bad("class-differs-from-the-based-integer-notation",
+                {"class": cls, "notation": br[0] if br[0] == "based" else br[1]},
+                f"{s!r}: notation reader says {br}, classified {cls}")
+        elif br[0] == "based" and parts["based"][1] != br[1]:
+            bad("based-integer-value-differs-from-the-notation",
+                {"notation": "based"},
+                f"{s!r}: {parts['based'][1]!r}, the notation gives {br[1]!r}")
+    elif cls == "based":
+        bad("class-differs-from-the-based-integer-notation",
+            {"class": cls, "notation": "not-of-the-form"}, f"{s!r} classified based")
     # token predicates
     t = Token(s, grammar=g, decoder=d)
     preds = {}
@@ -461,6 +524,7 @@ def finish_kwargs(rec, tier):
                            "parser_level_name_checks", "decoder_only_token_checks",
                            "date_time_class_checked_against_the_notation_reader",
                            "class[keyword]", "class[quoted]", "class[based]",
+                           "based_class_checked_against_the_notation_reader",
                            "class[decimal]", "class[datetime]",
                            "class[unquoted]", "class[not-a-value]"),
         assumptions=["the class of a string is the first acceptor in the "
